@@ -267,6 +267,25 @@ class ContractDB:
     def get(self, qual):
         return self.contracts.get(qual)
 
+    @classmethod
+    def for_target(cls, directory, target, extra_sources=()):
+        """the contract database a target is verified against: ONLY the sidecar file that carries its @contract / @harness (plus
+        _stubs.py and generated sources).  Sidecars of other properties - which may give the same callee a different abstraction
+        (an @assumed event-logging view here, a full contract there) - cannot interfere."""
+        import re
+        needle = target.split(":", 1)[1] if target.startswith("harness:") else target
+        pat = re.compile(r'@(contract|harness)\(\s*"' + re.escape(needle) + r'"')
+        db = cls(None)
+        chosen = []
+        for f in sorted(glob.glob(os.path.join(directory, "*.py"))):
+            if os.path.basename(f) == "_stubs.py" or pat.search(open(f).read()):
+                chosen.append(f)
+        for f in chosen:
+            db.load(f)
+        for name, text in extra_sources or ():
+            db.load(name, text=text)
+        return db
+
     def is_inline(self, qual):
         return qual in self.inline
 
